@@ -34,6 +34,32 @@ type pipeListener struct {
 	ch     chan net.Conn
 	closed chan struct{}
 	once   sync.Once
+	wrap   func(net.Conn) net.Conn // when set: wraps the server's end of every connection
+}
+
+// holdConn: the server's end of a connection whose writes can be held back by the harness, the way a full socket
+// buffer holds back a writer: Write has been called with the caller's bytes, but they have not been taken yet.
+type holdConn struct {
+	net.Conn
+	mu      sync.Mutex
+	holding bool
+	arrived chan int      // one entry per held write: its length
+	release chan struct{} // one token lets one held write through
+}
+
+func newHoldConn(c net.Conn) *holdConn {
+	return &holdConn{Conn: c, arrived: make(chan int, 64), release: make(chan struct{}, 64)}
+}
+func (h *holdConn) hold(on bool) { h.mu.Lock(); h.holding = on; h.mu.Unlock() }
+func (h *holdConn) Write(b []byte) (int, error) {
+	h.mu.Lock()
+	on := h.holding
+	h.mu.Unlock()
+	if on {
+		h.arrived <- len(b)
+		<-h.release
+	}
+	return h.Conn.Write(b)
 }
 
 func newPipeListener() *pipeListener {
@@ -56,6 +82,9 @@ func (l *pipeListener) dial() (net.Conn, error) {
 	default:
 	}
 	a, b := net.Pipe()
+	if l.wrap != nil {
+		b = l.wrap(b)
+	}
 	select {
 	case l.ch <- b:
 		return a, nil
